@@ -1031,7 +1031,9 @@ def obligations(tier):
     # "ints" slices: every integer field symbolic, windows concrete (overlapping tail: sides [0,1] and [1,2]).
     tsl = [dict(INTS, cfg="v20", a0=a, l0=l, ch=ch) for (a, l) in wins for ch in ((1,) if quick and l == 0 else (0, 1, 2))]
     for c in (("v20", "v19", "chaos", "vitamin", "l4d2") if quick else list(CONFIGS)):
-        tsl.append({"cfg": c, "a0": 0, "l0": 2, "a1": 1, "l1": 2, "ch": 1})
+        # two groups keep the solver queries small (the area<<k|flags packing proof is the expensive one, esp. k=17 for Chaos)
+        tsl.append({"cfg": c, "a0": 0, "l0": 2, "a1": 1, "l1": 2, "ch": 1, "area": 2, "lflags": 5})
+        tsl.append({"cfg": c, "a0": 0, "l0": 2, "a1": 1, "l1": 2, "ch": 1, "contents": 0x2001, "disp": 3, "cluster": 5, "water": -1, "wdist": 77, "area_ind": 4})
         if not quick:
             tsl += [dict(INTS, cfg=c, a0=a, l0=l, ch=1) for (a, l) in wins if c != "v20"]
     add("tree", "h_tree", tsl,
